@@ -198,6 +198,11 @@ var Interferers = []Script{
 		`package.config = "\\\n:\n!\n"`,
 		`package.searchers = {}`,
 	}},
+	{Name: "pkg_config_use", Stmts: []string{
+		`package.config = "/\n:\n#\n!\n-\n"`,
+		`r1 = package.searchpath("a.b", "$D/nosuch/#.lua:$D/nosuch/#/init.lua")`,
+		`r2 = pcall(require, "nosuchmodule_c20")`,
+	}},
 	{Name: "pkg_loaded", Core: true, Stmts: []string{
 		`package.loaded.string = nil`,
 		`package.loaded.math = {}`,
@@ -499,6 +504,12 @@ var Observers = []Script{
 		`emit((pcall(require, "mod")))`,
 		`emit((pcall(require, "m1")))`,
 		`emit(#package.searchers, GLOB_FROM_MOD)`,
+	}},
+	{Name: "pkg_searchpath_defaults", Active: true, Stmts: []string{
+		`emit(package.searchpath("a.b", "$D/nosuch/?.lua;$D/nosuch/#.lua"))`,
+		`package.config = nil`,
+		`emit(package.searchpath("a.b", "$D/nosuch/?.lua;$D/nosuch/#.lua"))`,
+		`package.config = "/\n" emit(package.searchpath("a.b", "$D/nosuch/?.lua;$D/nosuch/#.lua"))`,
 	}},
 	{Name: "os_locale_query", Active: true, Triple: true, Stmts: []string{
 		`ok, v = pcall(os.setlocale, nil)`,
